@@ -49,7 +49,7 @@ man = {
     ],
     'checks': checks,
     'not_applicable': na,
-    'notes': 'Static analysis only: no check executes oal code. Known findings: known_findings.txt. Fix commits in /repo: b5a2b22 5695ac1 3db2e62 99f20be 3ac75df 56a2d56 bed3368 42721f8 c271139 f741462 3216bb6 43919ac 8560c6f 83ad184 677e48f a19bb22 f218e0b fa14f1b f44403b.',
+    'notes': 'Static analysis only: no check executes oal code. Known findings: known_findings.txt. Fix commits in /repo: b5a2b22 5695ac1 3db2e62 99f20be 3ac75df 56a2d56 bed3368 42721f8 c271139 f741462 3216bb6 43919ac 8560c6f 83ad184 677e48f a19bb22 f218e0b fa14f1b f44403b f2f4c6f.',
 }
 json.dump(man, open(os.path.join(HERE, 'MANIFEST.json'), 'w'), indent=1)
 print('checks', [c['property_id'] for c in checks], 'not_applicable', [n['property_id'] for n in na])
